@@ -592,6 +592,9 @@ func crossTemplates() []chainx.Tpl {
 }
 
 func crossTpl(name string) chainx.Tpl {
+	if strings.HasPrefix(name, thrPrefix) { // plan H: the name is the program of the block
+		return thrTpl(name)
+	}
 	for _, t := range crossTemplates() {
 		if t.Name == name {
 			return t
@@ -851,6 +854,9 @@ func (sc *scenario) growPath() error {
 	for i := 1; i <= len(h); i++ {
 		if err := sc.growOn(n, w, h[:i]); err != nil {
 			return fmt.Errorf("block %d (%s): %w", i, sc.tpls[h[i-1]].Name, err)
+		}
+		if err := thrVerify(n, sc.tpls[h[i-1]].Name); err != nil {
+			return fmt.Errorf("block %d: %w", i, err)
 		}
 	}
 	return nil
